@@ -227,6 +227,8 @@ theorem sg_varDefinition (E : ∀ F fuel, SigIH F fuel) (F : List PT.Sig) (fuel 
       · exact PostOk.errBind
       po_if
       · exact PostOk.errBind
+      po_if
+      · exact PostOk.errBind
       · exact key2 ()
     · po_if
       · exact PostOk.errBind
